@@ -13,6 +13,7 @@ def dispatch (prop : String) (ins outs : List String) : Verdict :=
   | "C10" => C10.run ins outs
   | "C06" => C06.run ins outs
   | "C13" => C13.run ins outs
+  | "C20" => C20.run ins outs
   | _ => .bad ("unknown property " ++ prop)
 
 partial def loop (h : IO.FS.Stream) (out : IO.FS.Stream) (n : Nat) : IO Unit := do
